@@ -644,7 +644,7 @@ TypeOK ==
   /\ status \in {"build", "run", "done", "undef"}
   /\ status = "run" => /\ Len(frames) >= 1
                        /\ \A i \in 1..Len(frames) : frames[i].pc >= 1
-  /\ \A b \in 1..Len(mem) : Len(mem[b].cells) = mem[b].sz
+  /\ \A b \in 1..Len(mem) : mem[b].live => Len(mem[b].cells) = mem[b].sz          \* dead blocks keep their size only
 (* typed registers hold values of their kind: an optimiser-independent sanity property of the semantics *)
 RegsTyped ==
   status = "run" =>
